@@ -1715,6 +1715,10 @@ class Transaction(object):
 
         self.verified = False
         for inp in self.inputs:
+            if inp.script_type == 'coinbase' and len(self.inputs) > 1:
+                # Only the single input of a coinbase transaction needs no signature
+                _logger.info("Input %d without previous output in a transaction with more inputs" % inp.index_n)
+                return False
             try:
                 transaction_hash = self.signature_hash(inp.index_n, inp.hash_type, inp.witness_type)
                 # A signature commits to the transaction hash selected by its own hash type
